@@ -333,16 +333,25 @@ def Node.find (t : Node) (p : List Nat) : FRes Node :=
   | none => .error .notFound
   | some (slash, rest) => if slash ≠ [47] ∧ slash ≠ [92] then .error .noRootPath else t.walk rest
 
+def Node.getDir (t : Node) (q : Name) : FRes Node := (t.get q).bind Node.asDir
+def Node.getData (t : Node) (q : Name) : FRes Node := (t.get q).bind Node.asData
+def Node.firstDir (t : Node) : FRes Node := t.first.bind Node.asDir
+def Node.firstData (t : Node) : FRes Node := t.first.bind Node.asData
+
+/-- `find_resources([type, name])`: the language directory of that type and name -/
+def Node.findResources (t : Node) (ty name : Name) : FRes Node := (t.getDir ty).bind fun a => a.getDir name
 /-- `find_resource([type, name])`: the first language of that type and name -/
-def Node.findResource (t : Node) (ty name : Name) : FRes Node :=
-  (t.get ty).bind fun a => a.asDir.bind fun a => (a.get name).bind fun b => b.asDir.bind fun b => b.first.bind Node.asData
+def Node.findResource (t : Node) (ty name : Name) : FRes Node := (t.findResources ty name).bind Node.firstData
 /-- `find_resource_ex([type, name, language])` -/
-def Node.findResourceEx (t : Node) (ty name lang : Name) : FRes Node :=
-  (t.get ty).bind fun a => a.asDir.bind fun a => (a.get name).bind fun b => b.asDir.bind fun b => (b.get lang).bind Node.asData
-/-- the manifest: whatever comes first below type 24 -/
+def Node.findResourceEx (t : Node) (ty name lang : Name) : FRes Node := (t.findResources ty name).bind fun b => b.getData lang
+/-- the text of a data entry must be UTF-8 -/
+def Node.checkUtf8 : Node → FRes Node
+  | .data c cp => if (utf8Chars (c.map UInt8.toNat)).isSome then .ok (.data c cp) else .error (.pe .encoding)
+  | t => .ok t
+/-- the manifest: whatever comes first below type 24 (RT_MANIFEST) -/
 def Node.manifest (t : Node) : FRes Node :=
-  (t.get (.id 24)).bind fun a => a.asDir.bind fun a => a.first.bind fun b => b.asDir.bind fun b => b.first.bind Node.asData
-/-- the version resource: type 16, name 1, first language -/
+  (t.getDir (.id 24)).bind fun m => m.firstDir.bind fun l => l.firstData.bind Node.checkUtf8
+/-- the version resource: type 16 (RT_VERSION), name 1, first language -/
 def Node.version (t : Node) : FRes Node := t.findResource (.id 16) (.id 1)
 
 /-! ### icon / cursor files -/
